@@ -155,18 +155,15 @@ def run(ctx: Ctx, replay: str | None) -> None:
     d1 = r1.prints.get("TERM", [])
     if len(d1) != r1.distinct:
         raise MachineryError(f"depth-1 export incomplete: {len(d1)} lines for {r1.distinct} states")
-    pool_mod = 12 if quick else 6
+    pool_mod = 12 if quick else 8
     cands = sorted((t for t in d1 if t["ok"] and t["depth"] == 1), key=lambda t: json.dumps(t["term"], sort_keys=True))
     pool = [t["term"] for t in cands if t["hash"] % pool_mod == ctx.seed % pool_mod]
-    if quick:
-        cfg2 = base.replace("SamplePick = 0", f"SamplePick = {ctx.seed % 8}")
-        smod = 8
-    else:
-        # every depth-1 term is expanded; 1 depth-2 term out of 150 is expanded to depth 3
-        smod = 150
-        cfg2 = (base.replace("MaxDepth = 2", "MaxDepth = 3").replace("SampleFrom = 1", "SampleFrom = 2")
-                .replace("SampleMod = 8", f"SampleMod = {smod}").replace("SamplePick = 0", f"SamplePick = {ctx.seed % smod}")
-                .replace("ExportMod = 16", "ExportMod = 64"))
+    mod1 = 12 if quick else 3
+    mod2 = 1000
+    cfg2 = (base.replace("Mod1 = 12", f"Mod1 = {mod1}").replace("Pick1 = 0", f"Pick1 = {ctx.seed % mod1}")
+            .replace("Mod2 = 1000", f"Mod2 = {mod2}").replace("Pick2 = 0", f"Pick2 = {ctx.seed % mod2}"))
+    if not quick:
+        cfg2 = cfg2.replace("MaxDepth = 2", "MaxDepth = 3").replace("ExportMod = 16", "ExportMod = 64")
     r2 = run_tlc("MC_Transforms", cfg_text=cfg2, workers=workers, seed=ctx.seed, timeout=3000,
                  extra_files={"TransformsPool.tla": H.pool_module(pool)})
     ctx.add_tlc(r2)
@@ -187,8 +184,8 @@ def run(ctx: Ctx, replay: str | None) -> None:
     ctx.exhaustive = False
     ctx.extra["term_universe"] = {
         "atoms_and_depth1": "complete (every term exported and replayed)",
-        "deeper": (f"depth 2: 1/{8 if quick else 1} of the depth-1 terms x (59 atoms + {len(pool)} sampled depth-1 partners) x 8 "
-                   f"wrappers" + ("" if quick else f"; depth 3: 1/{smod} of the depth-2 terms, same partners")),
+        "deeper": (f"depth 2: 1/{mod1} of the depth-1 terms x (59 atoms + {len(pool)} sampled depth-1 partners) x 8 "
+                   f"wrappers" + ("" if quick else f"; depth 3: 1/{mod2} of the depth-2 terms, same partners")),
         "terms": len(recs), "well_formed": n_ok, "application_outcomes": sts,
         "ill_formed_exported_fraction": "1/16" if quick else "1/64 (all at depth <= 1)",
     }
